@@ -638,8 +638,21 @@ class MBXML:
         int_part = int(value)
         dec_part = int(value % 1 * 128**precision)
         integer = cls.write_uintvar(int_part)
-        decimal = cls.write_uintvar(dec_part)
+        decimal = cls.write_fraction(dec_part, precision)
         return integer + decimal
+
+    @classmethod
+    def write_fraction(cls, dec_part: int, precision: int) -> bytes:
+        """
+        write the fraction dec_part / 128**precision: exactly `precision` septets, most significant first
+        (the readers divide by 128 per septet read), without the trailing zero septets
+        """
+        septets: List[int] = [
+            (dec_part >> (7 * i)) & 0x7F for i in range(precision - 1, -1, -1)
+        ]
+        while len(septets) > 1 and septets[-1] == 0:
+            septets.pop()
+        return bytes([septet | 0x80 for septet in septets[:-1]] + septets[-1:])
 
     @classmethod
     def read_sfloatvar(cls, data: bytes, idx: int) -> Tuple[float, int]:
@@ -659,7 +672,7 @@ class MBXML:
         int_part = int(value)
         dec_part = int(abs(value % (1 if value >= 0 else -1)) * 128**precision)
         integer = cls.write_sintvar(int_part, negative_zero=value < 0)
-        decimal = cls.write_uintvar(dec_part)
+        decimal = cls.write_fraction(dec_part, precision)
         return integer + decimal
 
     @classmethod
